@@ -25,9 +25,9 @@ import hv
 from hv import Case
 
 SPEC = {
-    "lean_modules": ["Honeycomb.Props.C02", "Honeycomb.Props.C02b", "Honeycomb.Props.C01Gen", "Honeycomb.Props.C02Gen", "Honeycomb.Props.C02Gen3"],
+    "lean_modules": ["Honeycomb.Props.C02", "Honeycomb.Props.C02b", "Honeycomb.Props.C01Gen", "Honeycomb.Props.C02Gen", "Honeycomb.Props.C02Gen3", "Honeycomb.Props.C02GenApi"],
     # Gen/LinkCores.lean is re-translated from components/betas.rs before every build
-    "gen": ["cores", "links3", "links3c"],
+    "gen": ["cores", "links3", "links3c", "dispatch3"],
     "required_theorems": [
         # Props/C01Gen.lean: the translated *_core functions of betas.rs ARE the model's link cores (program equality)
         "C01_gen_oneLinkCore", "C01_gen_twoLinkCore", "C01_gen_threeLinkCore", "C01_gen_oneUnlinkCore", "C01_gen_twoUnlinkCore",
@@ -35,7 +35,7 @@ SPEC = {
         # Props/C02Gen.lean: the translated CMap3::one_link / one_unlink ARE the model's oneLink3 / oneUnlink3
         "C02_gen_oneLink3", "C02_gen_oneUnlink3", "C02_gen_one_links_preserve_WF_and_Mirror",
         # Props/C02Gen3.lean: the translated CMap3::three_link / three_unlink (both while loops) ARE the model's threeLink3 / threeUnlink3
-        "C02_gen_threeLink3", "C02_gen_threeUnlink3", "C02_gen_three_links_preserve_WF", "C02_gen_refusal", "whileL_linkBody", "whileL_unlinkBody","C02_step_preserves_WF", "C02_history_preserves_WF", "C02_step_preserves_Mirror",
+        "C02_gen_threeLink3", "C02_gen_threeUnlink3", "C02_gen_three_links_preserve_WF", "C02_gen_refusal", "C02_gen_api", "C02_gen_force_tables", "C02_gen_api_step_preserves_WF", "whileL_linkBody", "whileL_unlinkBody","C02_step_preserves_WF", "C02_history_preserves_WF", "C02_step_preserves_Mirror",
                           "C02_history_preserves_WF_and_Mirror", "C02_refusal", "C02_refusal_sew",
                           "C02_three_link_checks_shape", "C02_refused_call_changes_nothing",
                           "C02_unused_is_nobodys_image", "C02_failed_call_changes_nothing",
